@@ -258,6 +258,10 @@ C01_Clauses(cfg, S) ==
    \* ... and always then - also when the context was cancelled meanwhile: post is neither a new attempt
    \* nor a new node, and no other property allows skipping it after a result was produced
    postIf      |-> ForAllBlocks(LAMBDA s, i, b : PhaseOk(b) => b.posts # <<>>),
+   \* the fallback is part of the exec phase: a node that has one is not failed before it has been asked
+   fallbackAsked |-> ForAllBlocks(LAMBDA s, i, b :
+                     (NodeOf(cfg, b.node).fb /\ b.execs # <<>> /\ Len(b.execs) = BudgetOf(cfg, b.node) /\ AllFailed(b)
+                        /\ ~CancelledBy(s, BlockEnd(s, i))) => b.fbs # <<>>),
    \* post receives the same store, the prep value and that result
    postArgs    |-> ForAllBlocks(LAMBDA s, i, b :
                      b.posts # <<>> =>
